@@ -34,7 +34,7 @@ PROPS = {
     },
     'C09': {
         'families': [('c09', 10, 120)],
-        'rule': 'per generated archive: the archive and 8 structure-aware mutations of it (huge / non-minimal varints spliced over length prefixes, 8-byte header and index length fields overwritten with 0, 1, 2^40, 2^63-1, 2^63, 2^64-1, file length +/- 1, truncation, byte noise, appended bytes, raw random, cut-and-splice) x {default limits, small random MaxAllowedHeaderSize/SectionSize} x ZeroLengthSectionAsEOF x 15 parsing entry points (BlockReader Next and SkipNext over seekable and plain sources, Inspect full/quick, GenerateIndex seekable/plain, ReadOrGenerateIndex, index.ReadFrom on mutated index bytes + ForEach, blockstore.NewReadOnly + all queries, storage.OpenReadable + queries, ReplaceRootsInFile, ExtractV1File, root CarReader), each under recover() with the bytes allocated (runtime.MemStats.TotalAlloc) and the wall time measured; plus header/section limits probed at max-1, max, max+1; result classes compared with the model where one exists; distinct = distinct script text',
+        'rule': 'per generated archive: the archive and 8 structure-aware mutations of it (huge / non-minimal varints spliced over length prefixes, 8-byte header and index length fields overwritten with 0, 1, 2^40, 2^63-1, 2^63, 2^64-1, file length +/- 1, truncation, byte noise, appended bytes, raw random, cut-and-splice) x {default limits, small random MaxAllowedHeaderSize/SectionSize} x ZeroLengthSectionAsEOF x 15 parsing entry points (BlockReader Next and SkipNext over seekable and plain sources, Inspect full/quick, GenerateIndex seekable/plain, ReadOrGenerateIndex, index.ReadFrom on mutated index bytes + ForEach, blockstore.NewReadOnly + all queries, storage.OpenReadable + queries, ReplaceRootsInFile, ExtractV1File, root CarReader, ReadVersion, Reader.IndexReader + index.ReadFrom, GenerateIndexFromFile, OpenReader + Roots + Inspect, the DataReader-derived block reader), each under recover() with the bytes allocated (runtime.MemStats.TotalAlloc) and the wall time measured; plus header/section limits probed at max-1, max, max+1 and at a configured limit of 0 or 1; result classes compared with the model where one exists; distinct = distinct script text',
         'trusted': ['runtime.MemStats.TotalAlloc as the allocation measure; a fatal out-of-memory or a hang of the harness process is reported by the orchestrator as a crash of the family (replay = the case file written before each call)'],
         'assumptions': ['allocation bound checked: MaxAllowedHeaderSize + MaxAllowedSectionSize + 4096 * len(input) + 4 MiB per call'],
     },
